@@ -187,6 +187,43 @@ Theorem C15_prev_count : forall c t p ls cs i count w,
 Proof. exact reach_prev_count. Qed.
 Print Assumptions C15_prev_count.
 
+(* From the last entry complete_next(count, disable_wrap_around=True) does
+   nothing, and with wrapping allowed it goes to "nothing selected" (original
+   text and cursor) - for every count; ... *)
+Theorem C15_next_from_last : forall c t p ls cs count,
+  0 <= p <= len t ->
+  cst (reach c t p ls) = Some cs -> cs_idx cs = Some (len (cs_comps cs) - 1) ->
+  step (reach c t p ls) (CompleteNext count true) = (reach c t p ls, 0) /\
+  exists s', step (reach c t p ls) (CompleteNext count false) = (s', 0) /\
+    cst s' = Some (cs_with_idx cs None) /\ text s' = dtext (cs_orig cs) /\ cur s' = dcur (cs_orig cs).
+Proof. exact reach_next_from_last. Qed.
+Print Assumptions C15_next_from_last.
+
+(* ... symmetrically complete_previous from the first entry; ... *)
+Theorem C15_prev_from_first : forall c t p ls cs count,
+  0 <= p <= len t ->
+  cst (reach c t p ls) = Some cs -> cs_idx cs = Some 0 ->
+  step (reach c t p ls) (CompletePrev count true) = (reach c t p ls, 0) /\
+  exists s', step (reach c t p ls) (CompletePrev count false) = (s', 0) /\
+    cst s' = Some (cs_with_idx cs None) /\ text s' = dtext (cs_orig cs) /\ cur s' = dcur (cs_orig cs).
+Proof. exact reach_prev_from_first. Qed.
+Print Assumptions C15_prev_from_first.
+
+(* ... and from "nothing selected" next selects the first and previous the
+   last entry, whatever count and disable_wrap_around are.  With
+   C15_next_count / C15_prev_count this covers every selection, every count,
+   both values of the flag. *)
+Theorem C15_next_prev_from_none : forall c t p ls cs count w,
+  0 <= p <= len t ->
+  cst (reach c t p ls) = Some cs -> cs_idx cs = None -> 1 <= len (cs_comps cs) ->
+  (exists s', step (reach c t p ls) (CompleteNext count w) = (s', 0) /\
+     cst s' = Some (cs_with_idx cs (Some 0)) /\ ntp (cs_with_idx cs (Some 0)) = Some (text s', cur s')) /\
+  (exists s', step (reach c t p ls) (CompletePrev count w) = (s', 0) /\
+     cst s' = Some (cs_with_idx cs (Some (len (cs_comps cs) - 1))) /\
+     ntp (cs_with_idx cs (Some (len (cs_comps cs) - 1))) = Some (text s', cur s')).
+Proof. exact reach_from_none. Qed.
+Print Assumptions C15_next_prev_from_none.
+
 (* Before /repo commit c676c2a the index was clamped on one side only and a
    negative count raised AssertionError from go_to_index (findings C15-F2 /
    C15-F3, repaired): complete_next as it was, on a reachable consistent menu. *)
@@ -253,7 +290,7 @@ Print Assumptions C15_late_completer.
    suggester's suggestion for the text shown - the oracle of the real-thread
    stress stream, for every label list. *)
 Theorem C15_threaded_values : forall (fvalid : list Z -> bool) (fsugg : list Z -> option (list Z)) c t p ls,
-  0 <= p <= len t -> vwt c = true -> det_run fvalid fsugg (init c t p) ls ->
+  0 <= p <= len t -> hval c = true -> det_run fvalid fsugg (init c t p) ls ->
   let s := run (init c t p) ls in
   (vst s <> 0 -> vst s = (if fvalid (text s) then 1 else 2)) /\
   (forall sg d, sug s = Some (sg, d) -> fsugg (text s) = Some sg).
@@ -278,7 +315,7 @@ Print Assumptions C15_single_flight.
    run), is reachable; and so is the menu that used to break: the single no-op
    completion selected, completer finished - still there, still selected. *)
 Example C15_reachable :
-  let s := reach (mkcfg true true true 10000 true) [97] 1
+  let s := reach (mkcfg true true true true 10000 true) [97] 1
              [Insert [98]; Tick; VReturn 0 true; SReturn 0 (Some [120]);
               CYield 0 [97; 98; 99] (-2); CYield 0 [97; 98; 100] (-2);
               CompletePrev 1 false] in
@@ -290,7 +327,7 @@ Proof. vm_compute. split; [reflexivity|]. split; [reflexivity|]. eexists. repeat
    validator: the ValidationError moves the cursor, the late answer of the
    validator in flight is dropped (its document is no longer the buffer's) *)
 Example C15_sync_validate_race :
-  let s := reach (mkcfg false true false 10000 true) [97; 98] 2
+  let s := reach (mkcfg false true true false 10000 true) [97; 98] 2
              [Insert [99]; Tick; Validate false 1 true; VReturn 0 true] in
   vst s = 2 /\ cur s = 1 /\ vcos s = [] /\ vrun s = false /\
   exists d, vsrc s = Some d /\ dtext d = text s.
@@ -300,10 +337,25 @@ Proof. vm_compute. repeat split. eexists. split; reflexivity. Qed.
    still in flight: the next prompt starts empty, their late results are all
    dropped *)
 Example C15_accept_with_everything_in_flight :
-  let s := reach (mkcfg true true true 10000 true) [97] 1
+  let s := reach (mkcfg true true true true 10000 true) [97] 1
              [Insert [98]; Tick; ValidateAndHandle true 0 false;
               CYield 0 [97; 98; 99] (-2); VReturn 0 false; SReturn 0 (Some [120])] in
   text s = [] /\ cst s = None /\ vst s = 0 /\ sug s = None /\ ccos s = [] /\ length (vcos s) = 1%nat.
+Proof. vm_compute. repeat split. Qed.
+
+(* a validator WITHOUT validate_while_typing: no validator task is ever
+   created, the synchronous validate() still raises and moves the cursor *)
+Example C15_validator_not_while_typing :
+  let s := reach (mkcfg false true false false 10000 true) [97] 1 [Insert [98]; Tick; Validate false 0 true] in
+  vst s = 2 /\ cur s = 0 /\ pending s = [] /\ vcos s = [].
+Proof. vm_compute. repeat split. Qed.
+
+(* a cursor move forgets a VALID verdict (commit 826cb7e) and keeps an error *)
+Example C15_cursor_move_forgets_valid :
+  let c := mkcfg false true true false 10000 true in
+  vst (reach c [97] 1 [Insert [98]; Tick; VReturn 0 true]) = 1 /\
+  vst (reach c [97] 1 [Insert [98]; Tick; VReturn 0 true; MoveCursor 0]) = 0 /\
+  vst (reach c [97] 1 [Insert [98]; Tick; VReturn 0 false; MoveCursor 0]) = 2.
 Proof. vm_compute. repeat split. Qed.
 
 Example C15_former_witness_now_fine :
